@@ -185,7 +185,8 @@ def main(argv=None):
     if S.fails:
         from collections import Counter
         print('  failing clauses (recorded cases):', dict(Counter(f['fails'][0][0] for f in S.fails)))
-    if new:
+    if new or S.extra.get('fails_not_listed', 0):
+        # failures beyond the recording caps cannot be matched against KNOWN_FINDINGS and count as violations
         return 1
     if S.harness_errors or S.determinism_mismatch:
         return 2
